@@ -72,6 +72,8 @@ M = [
  ('C03', 's04-expanded-env-shared-and-published-early', 'rebench/model/run_id.py',
   "        self._expandend_env = {\n            key: expand_user(value, False)\n            for key, value in self.benchmark.run_details.env.items()}",
   "        details = self.benchmark.run_details\n        if getattr(details, 'expanded_env', None) is None:\n            details.expanded_env = dict(details.env)\n            for key, value in details.env.items():\n                if '~' in value:\n                    details.expanded_env[key] = expand_user(value, False)\n        self._expandend_env = details.expanded_env"),
+ ('C03', 's05-input-size-digit-string-to-int', 'rebench/persistence.py',
+  '        if input_size == "":\n            input_size = None', '        if isinstance(input_size, str) and input_size.isdigit():\n            input_size = int(input_size)\n        if input_size == "":\n            input_size = None'),
  # ---------------------------------------------------------------- C20
  ('C20', 'n01-no-finally', 'rebench/rebench.py',
   "            finally:\n                restore_noise(denoise_result, show_denoise_warnings, self.ui)",
@@ -128,6 +130,14 @@ M = [
  ('C20', 'p04-parallel-fail-fast-on-worker-exception', 'rebench/executor.py',
   "                if thread.exception is not None:\n                    exceptions.append(thread.exception)\n        except KeyboardInterrupt:",
   "                if thread.exception is not None:\n                    exceptions.append(thread.exception)\n                    break\n        except KeyboardInterrupt:"),
+ ('C20', 'e01-exec-nice-only-without-shield', 'rebench/denoise.py',
+  '    if use_nice:\n        cmdline += ["nice", "-n-20"]', '    elif use_nice:\n        cmdline += ["nice", "-n-20"]'),
+ ('C20', 'e02-exec-core-set-always', 'rebench/denoise.py',
+  '    if use_shielding and paths.has_cset():\n        min_cores', '    if True:\n        min_cores'),
+ ('C20', 'i01-sigterm-handler-not-installed-early', 'rebench/rebench.py',
+  "            setup_signal_handling()\n", "            pass\n"),
+ ('C20', 'i02-sigterm-handler-reset-after-each-process', 'rebench/subprocess_with_timeout.py',
+  "    finally:\n        was_stopped = running.discard(thread)\n", "    finally:\n        was_stopped = running.discard(thread)\n        if current_thread() is main_thread():\n            signal.signal(signal.SIGTERM, signal.SIG_DFL)\n"),
  ('C20', 'n14-num-cores-minus-one', 'rebench/executor.py',
   'cmdline += "--num-cores " + str(num_cores) + " "', 'cmdline += "--num-cores " + str(num_cores - 1) + " "'),
 ]
